@@ -32,3 +32,26 @@ Theorem C11_existing_final_refused : forall c st sw g vec,
               w_files st' = finalize st /\ w_openf st' = None /\ w_failed st' = w_failed st /\ w_gi st' = w_gi st.
 Proof. exact existing_final_refused. Qed.
 Print Assumptions C11_existing_final_refused.
+
+(* ---- the union of sessions.  A restart (close + new writer with start index s') that begins at or
+   after the end of every file period holding a recorded sample keeps the refinement under the new
+   start: across any history of block calls and such restarts the channel denotes exactly the union
+   of all sessions' accepted samples at their absolute indices, with files in increasing time order
+   (so the reader theorems of C08 / the round trip of C01 apply to the multi-session channel).
+   Chunked layouts.  Sessions that start earlier than or inside recorded periods are covered by
+   C11_finalized_never_touched and C11_existing_final_refused above, and by the correspondence. *)
+From DRF Require Import Proofs.WriterMultiIdx Proofs.WriterMulti Proofs.WriterSessions.
+
+Theorem C11_restart_keeps_refinement : forall c st s s', vcfg c -> 0 <= s' -> refines c st s ->
+  (forall k v, s_map s k = Some v -> whi c (Fk c k) <= s') ->
+  refines (with_start c s') (restart st) (mkSpec 0 (s_map s)).
+Proof. exact restart_refines. Qed.
+Print Assumptions C11_restart_keeps_refinement.
+
+Theorem C11_union_of_forward_sessions : forall c ops, vcfg c -> c_chunk c = true ->
+  ok_history (c, spec_init) ops ->
+  let '(c', st') := fold_left sstep_model ops (c, init_state) in
+  let '(c'', s') := fold_left sstep_spec ops (c, spec_init) in
+  c'' = c' /\ refines c' st' s'.
+Proof. exact sessions_refine_init. Qed.
+Print Assumptions C11_union_of_forward_sessions.
